@@ -46,6 +46,17 @@ def stmt_muts(st: ast.AST, aliases: Dict[str, Tuple[str, str]]) -> List[Mut]:
     """Mutations performed by one simple statement (aliases updated in place for `x = y.table`)."""
     out: List[Mut] = []
     if isinstance(st, ast.Assign):
+        # alias definitions in one tuple assignment: a, b = x.in_links, x.in_link_slots
+        if len(st.targets) == 1 and isinstance(st.targets[0], ast.Tuple) and isinstance(st.value, ast.Tuple) \
+                and len(st.targets[0].elts) == len(st.value.elts) and all(isinstance(t, ast.Name) for t in st.targets[0].elts):
+            refs = [table_ref(v, aliases) for v in st.value.elts]
+            if any(r is not None for r in refs):
+                for t, r in zip(st.targets[0].elts, refs):
+                    if r is not None:
+                        aliases[t.id] = r
+                    else:
+                        aliases.pop(t.id, None)
+                return out
         # alias definition
         if len(st.targets) == 1 and isinstance(st.targets[0], ast.Name):
             r = table_ref(st.value, aliases)
@@ -84,7 +95,7 @@ def function_muts(fn: ast.AST) -> List[Mut]:
     aliases: Dict[str, Tuple[str, str]] = {}
     out: List[Mut] = []
     stmts = [n for n in walk_no_nested(fn) if isinstance(n, ast.stmt)]
-    stmts.sort(key=lambda s: (s.lineno, s.col_offset))
+    stmts.sort(key=lambda s: (getattr(s, "_seq", None) if hasattr(s, "_seq") else s.lineno, s.col_offset))
     for st in stmts:
         if isinstance(st, (ast.Assign, ast.AugAssign, ast.Delete, ast.Expr, ast.Return)):
             out.extend(stmt_muts(st, aliases))
@@ -95,8 +106,19 @@ def function_muts(fn: ast.AST) -> List[Mut]:
 
 
 def census(repo: Repo) -> Dict[str, List[Mut]]:
-    """qualified function -> link-table mutations, over every file under src/python/rv."""
+    """qualified function -> link-table mutations, over every file under src/python/rv.
+
+    Functions are flattened first (private helpers inlined, see sa/inline.py), so a helper that receives a table as an
+    argument, or that holds the body of one operation, is accounted to the function that calls it; a private helper
+    that was inlined at every place it is called from is not listed a second time."""
+    from . import inline
     out: Dict[str, List[Mut]] = {}
+    inlined_names: Set[str] = set()
+    called_raw: Dict[str, int] = {}
+    owners: Dict[int, ClassInfo] = {}
+    for c in repo.all_classes():
+        for f in list(c.methods.values()) + list(c.getters.values()) + list(c.setters.values()):
+            owners[id(f)] = c
     for rel, sf in sorted(repo.files.items()):
         if not sf.modname.startswith("rv"):
             continue
@@ -104,7 +126,18 @@ def census(repo: Repo) -> Dict[str, List[Mut]]:
         def rec(node, prefix):
             for ch in ast.iter_child_nodes(node):
                 if isinstance(ch, (ast.FunctionDef, ast.AsyncFunctionDef)):
-                    ms = function_muts(ch)
+                    il = inline.Inliner(repo, owners.get(id(ch)), sf)
+                    try:
+                        flat = il.flatten(ch)
+                    except Exception:
+                        flat = ch
+                    inlined_names.update(il.inlined)
+                    for c2 in ast.walk(flat):
+                        if isinstance(c2, ast.Call):
+                            nm = c2.func.attr if isinstance(c2.func, ast.Attribute) else (c2.func.id if isinstance(c2.func, ast.Name) else None)
+                            if nm:
+                                called_raw[nm] = called_raw.get(nm, 0) + 1
+                    ms = function_muts(flat)
                     if ms:
                         out[f"{rel}:{prefix}{ch.name}"] = ms
                     rec(ch, f"{prefix}{ch.name}.")
@@ -113,6 +146,10 @@ def census(repo: Repo) -> Dict[str, List[Mut]]:
                 else:
                     rec(ch, prefix)
         rec(sf.tree, "")
+    for key in list(out):
+        name = key.rsplit(".", 1)[-1].split(":")[-1]
+        if name in inlined_names and name.startswith("_") and not name.startswith("__") and not called_raw.get(name):
+            del out[key]          # accounted to its callers
     return out
 
 
